@@ -23,6 +23,8 @@ def run(ctx):
                         "the table is used only inside decode (checked: C18-R2)"]
     res.not_decided += ["allocator-level memory", "the pending-byte bound as arithmetic (only: growth happens where a copy of the same length follows)"]
     D.rule_segtype_subject(res, "C17-R1", m)
+    res.rule("C17-R4", "entries are opened and dropped by real messages only: the message loop steps by each message's wire length (stride = payload "
+                        "length + 16 as a linear form, taken from a packet whose payload buffer holds exactly the wire bytes — shared with C04-R2/R6)")
     n = D.rule_loop_typestate(res, "C17-R1", m)
     D.rule_accept_guard(res, "C17-R1A", m)
     D.rule_segment_ends_walk(res, "C17-R1", m)
@@ -32,6 +34,13 @@ def run(ctx):
     D.rule_table_only_state(res, "C17-R3", m)
     D.rule_keyed_access(res, "C17-R3", m)
     D.rule_key_equality(res, "C17-R3", m)  # erase(key) releases the entry only if the container's key relation finds it again
+    # the walk over a frame steps by the wire length of each message (C04-R2 stride, C04-R6 constructed length): a wrong stride parses
+    # payload bytes as message headers and opens / drops entries for messages that were never sent
+    from rules import c04
+    for o in c04.run(ctx).obligations:
+        if o["rule"] in ("C04-R2", "C04-R6"):
+            res.check(o["ok"], "C17-R4", o["key"], o["loc"], o["detail"], o["detail"])
+    res.floor("C17-R4", 3)
     res.floor("C17-R1", 6, n)
     res.floor("C17-R1L", 3)
     res.floor("C17-R2", 2)
